@@ -217,7 +217,7 @@ where
                 let mut map: HashMap<K, A> = HashMap::new();
                 for (k, vs) in kvv {
                     let acc = comb.build_from_group(&vs);
-                    map.insert(k, acc);
+                    comb.merge(map.entry(k).or_insert_with(|| comb.create()), acc);
                 }
                 Box::new(map) as Partition
             })
